@@ -2,7 +2,7 @@
 C20 (source tie) — the hand-written model of the provider chain `Authorizer::authenticate_request`
 (`KM.Http.authenticate`, Http/Auth.lean) equals the definition that the translator `pure_fns`
 regenerates from `/repo/src/daemon/http/auth/authorizer.rs` on every run (`Generated/PureFnsC20.lean`,
-`KM.Gen.Authorizer.authenticate_request`).
+`KM.Gen.C20.Authorizer.authenticate_request`).
 
 `authenticates_iff`, `refused_everywhere`, `wrong_credentials_refused` (Props/C20.lean, Props/C13.lean)
 are about `KM.Http.authenticate`: legacy admin-token provider first (if there is one), then the primary
@@ -39,7 +39,7 @@ def legacyOpt (cfg : Config) : Option Unit :=
 
 /-- The generated chain with the model's providers plugged in. -/
 abbrev genAuthenticate (cfg : Config) (st : SessState) (h : Header) (t : Transport) : AuthRes :=
-  KM.Gen.Authorizer.authenticate_request (ρ := AuthRes) (ε := Unit) (π := Unit)
+  KM.Gen.C20.Authorizer.authenticate_request (ρ := AuthRes) (ε := Unit) (π := Unit)
     (legacyOpt cfg) (fun _ => toExcept (adminProvider cfg h))
     (toExcept (primaryProvider cfg st h).1) (toExcept (unixProvider cfg t))
     AuthRes.none (fun _ => AuthRes.err)
@@ -58,14 +58,14 @@ theorem authenticate_fst (cfg : Config) (st : SessState) (h : Header) (t : Trans
 
 /-- The generated body over arbitrary provider results (legacy provider present). -/
 theorem gen_chain_some (r1 r2 r3 : AuthRes) :
-    KM.Gen.Authorizer.authenticate_request (ρ := AuthRes) (ε := Unit) (π := Unit)
+    KM.Gen.C20.Authorizer.authenticate_request (ρ := AuthRes) (ε := Unit) (π := Unit)
       (some ()) (fun _ => toExcept r1) (toExcept r2) (toExcept r3) AuthRes.none (fun _ => AuthRes.err)
       = chain r1 r2 r3 := by
   cases r1 <;> cases r2 <;> cases r3 <;> rfl
 
 /-- … and without a legacy provider: the chain starts with `Ok(None)`. -/
 theorem gen_chain_none (r1 : Unit → Except Unit (Option AuthRes)) (r2 r3 : AuthRes) :
-    KM.Gen.Authorizer.authenticate_request (ρ := AuthRes) (ε := Unit) (π := Unit)
+    KM.Gen.C20.Authorizer.authenticate_request (ρ := AuthRes) (ε := Unit) (π := Unit)
       Option.none r1 (toExcept r2) (toExcept r3) AuthRes.none (fun _ => AuthRes.err)
       = chain AuthRes.none r2 r3 := by
   cases r2 <;> cases r3 <;> rfl
